@@ -83,8 +83,11 @@ def _parse_op(rng, cfg, modes, p=None):
           'f': rng.randrange(len(cfg['files'])), 'g': rng.randrange(len(cfg['grammars'])),
           'c': rng.randrange(cfg['cdirs']) if rng.random() < 0.92 else -1,
           'm': rng.choice(modes), 't': []}
-    if rng.random() < 0.15:
+    r = rng.random()
+    if r < 0.15:
         op['strpath'] = True
+    elif r < 0.25:
+        op['fio'] = True
     return op
 
 
